@@ -25,7 +25,7 @@ TAILS = {"less_except": "the old road", "insofar": "it lies north of the river",
 def trigger_cases(ctx, shapes, prefix="g"):
     cases = []
     for i, a in enumerate(shapes):
-        doc = plssdoc.concretise(a, ctx.rng)
+        doc = plssdoc.concretise(a, ctx.rng, vary_tr=True)
         ids = sorted(doc["blocks"])
         for b in ids:
             doc["blocks"][b] = ctx.rng.choice(PLAIN_BLOCKS)
